@@ -643,6 +643,12 @@ func (v *FnV) builtin(st *State, call *ast.CallExpr, name string, preArgs []Valu
 		t := v.typeOf(call.Args[0])
 		ref := v.alloc(st, "new")
 		v.store(st, t, ref, v.c.zeroOf(t))
+		switch typeKey(t) {
+		case "math/big.Int":
+			v.setBigInt(st, ref, "0")
+		case "math/big.Rat":
+			v.setBigRat(st, ref, "0.0")
+		}
 		return []Value{{T: rt, S: ref}}
 	case "make":
 		t := v.typeOf(call.Args[0])
@@ -653,7 +659,7 @@ func (v *FnV) builtin(st *State, call *ast.CallExpr, name string, preArgs []Valu
 			if len(call.Args) > 2 {
 				cp = arg(2)
 			}
-			v.safety(st, "call:make", call, sAnd(sLe("0", n.S), sLe(n.S, cp.S), sLe(cp.S, "1099511627776")), "make: 0 <= len <= cap <= 2^40")
+			v.safety(st, "call:make", call, sAnd(sLe("0", n.S), sLe(n.S, cp.S), sLe(cp.S, "281474976710656")), "make: 0 <= len <= cap <= 2^48")
 			ref := v.alloc(st, "make")
 			elem := v.substT(u.Elem())
 			name, h := v.elemHeap(st, elem)
@@ -819,9 +825,30 @@ func (v *FnV) yieldShared(st *State) {
 }
 
 func (v *FnV) goStmt(st *State, x *ast.GoStmt) {
-	v.abstract(x, "go statement (goroutine body not executed; shared state havocked)")
+	var args []Value
 	for _, a := range x.Call.Args {
-		v.expr(st, a)
+		args = append(args, v.expr(st, a))
+	}
+	if lit, ok := unparen(x.Call.Fun).(*ast.FuncLit); ok {
+		// The goroutine body is executed once as a TASK on a copy of the state in
+		// which everything shared has been havocked: its panic-freedom and call
+		// obligations then hold for whatever the other goroutines did before it
+		// started. Nothing is concluded about interleavings.
+		v.abstract(x, "go statement: body verified as a task started from a havocked shared state; interleavings are not modelled")
+		task := st.fork()
+		v.yield(task)
+		for _, obj := range capturedAssigned(lit, v.info()) {
+			if cur, ok := task.env[obj]; ok && !v.boxed[obj] {
+				task.env[obj] = task.freshVal(obj.Name(), cur.T)
+			}
+		}
+		v.inTask++
+		v.inlineLit(task, lit, v.fr(), args)
+		v.inTask--
+		// variables the task assigns are unknown to the spawner from now on
+		v.escapeClosures(st, []Value{v.expr(st, lit)})
+	} else {
+		v.abstract(x, "go statement (goroutine body not executed; shared state havocked)")
 	}
 	v.yield(st)
 }
